@@ -465,6 +465,55 @@ fn generate(a: &Args) -> i32 {
         }
     }
 
+    // ---- typed consumers (merge keys with list values, aliases, nested containers): faults that set the error cell only ONCE —
+    // end of input inside a multi-byte character, a cap that refuses exactly the last characters, a one-shot read error — at
+    // every position; whatever the typed deserializer is doing when the fault falls into the scanner's look-ahead, the call
+    // must not return a value
+    {
+        #[derive(Debug, serde::Deserialize)]
+        #[allow(dead_code)]
+        struct TDoc { #[serde(default)] base: serde_json::Value, #[serde(default)] b2: serde_json::Value, obj: BTreeMap<String, serde_json::Value>, #[serde(default)] tail: Option<String> }
+        let tdocs = [
+            "base: &b1 {x: 1, k: 2}\nb2: &b2 {y: é}\nobj:\n  <<: [*b1, {z: 3}]\n  k: 4\ntail: é\n",
+            "base: &b1 {x: 1}\nobj:\n  <<:\n    - *b1\n    - {z: 3}\n    - *b1\n  w: ü\n# é\n",
+            "base: &b1 {x: 1}\nobj: {<<: *b1, q: [1, 2, {r: s}]}\ntail: \"€\"\n",
+            "obj:\n  k: &a [1, 2]\n  l: *a\n  m: {n: *a}\ntail: 日本\n",
+        ];
+        for doc in tdocs {
+            let d = doc.as_bytes();
+            let n = d.len();
+            let full = serde_saphyr::from_reader_with_options::<_, TDoc>(SchedReader::whole(d), opts(None));
+            if full.is_err() { o.fail("C10-typed-baseline", "fault-free typed document rejected", d, "err", "ok"); continue; }
+            for k in 0..n {
+                // (a) clean end of input at k: an error exactly... at least when k cuts a multi-byte character
+                let inside_char = std::str::from_utf8(&d[..k]).is_err();
+                for chunk in [1usize, 3, usize::MAX] {
+                    if inside_char {
+                        let r = serde_saphyr::from_reader_with_options::<_, TDoc>(SchedReader::new(d, &[], chunk, k, Tail::Eof), opts(None));
+                        sink.count("typed.eof_inside_code_point");
+                        nontrivial += 1;
+                        if let Ok(v) = &r { o.fail("C10-single-swallows-fault", &format!("typed from_reader returned a value on input ending inside a code point at byte {k} (chunk {chunk})"), d, &format!("ok {v:?}"), "err"); }
+                        let mut rd = SchedReader::new(d, &[], chunk, k, Tail::Eof);
+                        let items: Vec<bool> = serde_saphyr::read_with_options::<_, TDoc>(&mut rd, opts(None)).take(100).map(|x| x.is_ok()).collect();
+                        if !items.iter().any(|ok| !ok) { o.fail("C10-iter-swallows-fault", &format!("typed read yielded no Err item on input ending inside a code point at byte {k}"), d, &format!("{items:?}"), "an Err item"); }
+                    }
+                    // (b) a read error that happens once at k
+                    let r = serde_saphyr::from_reader_with_options::<_, TDoc>(SchedReader::new(d, &[], chunk, k, Tail::FailOnce(0)), opts(None));
+                    sink.count("typed.fail_once");
+                    nontrivial += 1;
+                    if let Ok(v) = &r { o.fail("C10-single-swallows-fault", &format!("typed from_reader returned a value although the reader failed once at byte {k} (chunk {chunk})"), d, &format!("ok {v:?}"), "err"); }
+                }
+                // (c) a cap that refuses the input from byte k on
+                let r = serde_saphyr::from_reader_with_options::<_, TDoc>(SchedReader::whole(d), opts(Some(k)));
+                sink.count("typed.cap");
+                nontrivial += 1;
+                if let Ok(v) = &r { o.fail("C10-cap-breach-accepted", &format!("typed from_reader: {n} bytes accepted with cap {k}"), d, &format!("ok {v:?}"), "err"); }
+                let r = serde_saphyr::with_deserializer_from_reader_with_options(SchedReader::whole(d), opts(Some(k)), |de| <TDoc as serde::Deserialize>::deserialize(de));
+                if r.is_ok() { o.fail("C10-cap-breach-accepted", &format!("typed with_deserializer_from_reader: {n} bytes accepted with cap {k}"), d, "ok", "err"); }
+            }
+        }
+    }
+
     // ---- writer side
     let mut wn = 0;
     for d in &docs {
